@@ -236,7 +236,7 @@ def st_warn_csv(draw):
     in_policy = draw(st.sampled_from(['quoted', 'quoted', 'simple', 'quoted_rfc']))
     dlm = draw(st.sampled_from([',', ';', '\t', '|']))
     out_policy = draw(st.sampled_from(['simple', 'quoted', 'simple']))
-    out_dlm = draw(st.sampled_from([dlm, ',', '\t', ';', '::']))
+    out_dlm = draw(st.sampled_from([dlm, ',', '\t', ';', '::', ', ', ':=']))
     clean = draw(st.integers(0, 3)) == 0
     nrows = draw(st.integers(0, 6))
     width = draw(st.integers(1, 3))
@@ -248,7 +248,7 @@ def st_warn_csv(draw):
             if clean:
                 fields.append(draw(st.sampled_from(['a', 'b', 'x1', '', 'é', 'a b'])))
             else:
-                fields.append(draw(st.sampled_from(['a', 'b', '', 'x' + out_dlm[0] + 'y', 'x' + out_dlm + 'y', '"q"', 'a"b', '"a%sb"' % dlm, '" x"', 'é', ' "s" ', '"un', ';', ','])))
+                fields.append(draw(st.sampled_from(['a', 'b', '', 'x' + out_dlm[0] + 'y', 'x' + out_dlm + 'y', 'x' + out_dlm[0], out_dlm[-1] + 'y', '"q"', 'a"b', '"a%sb"' % dlm, '" x"', 'é', ' "s" ', '"un', ';', ','])))
         lines.append(dlm.join(fields))
     comment = draw(st.sampled_from([None, None, '#', '//']))
     if comment is not None:
@@ -309,8 +309,8 @@ def expected_csv_warnings(case):
         flat = [c for r in out for c in r]
         if any(refcsv.find_from(c, od, 0) != -1 for c in flat):
             warns.add('Some output fields contain separator')
-        elif len(od) > 1 and any(any(ch in c for ch in od) for c in flat):
-            undecidable = True   # partial overlap with a multi-character delimiter: C10's non-representable region
+        elif len(od) > 1 and any(refcsv.split_plain(od.join(r), od) != r for r in out):
+            undecidable = True   # no field contains the delimiter but the joined line does not split back: C10's non-representable region
     return warns, undecidable
 
 
